@@ -8,6 +8,7 @@ package main
 
 import (
 	"bytes"
+	crand "crypto/rand"
 	"errors"
 	"fmt"
 	"io"
@@ -291,7 +292,34 @@ func runHedged(d *big.Int, digest []byte, src string) string {
 	return ""
 }
 
+// runNilRand: "if rand is nil, crypto/rand.Reader is used": with the global crypto/rand.Reader replaced by a
+// scripted stream, SignRaw(nil, ...) must be exactly SignRaw(<the same stream>, ...): same hedged construction,
+// exactly 32 bytes consumed. Must run single-threaded (process-global variable).
+func runNilRand(d *big.Int, digest []byte, src string) string {
+	sc := mc.Script{Src: src, Mode: "full", FailAfter: -1}
+	want, wantS, _, err := signWith(d, digest, sc)
+	if err != nil {
+		return "explicit reader failed: " + err.Error()
+	}
+	old := crand.Reader
+	rd := sc.New()
+	crand.Reader = rd
+	r, s, _, e2 := lib.MkPriv(d).SignRaw(nil, digest)
+	crand.Reader = old
+	if e2 != nil {
+		return "SignRaw(nil) failed: " + e2.Error()
+	}
+	if !bytes.Equal(r.Bytes(), want) || !bytes.Equal(s.Bytes(), wantS) {
+		return "SignRaw(nil reader) with crypto/rand.Reader = X differs from SignRaw(X): the nonce derivation depends on how the entropy source was supplied (the system RNG is trusted directly?)"
+	}
+	if rd.Consumed != 32 {
+		return fmt.Sprintf("SignRaw(nil reader) consumed %d bytes from crypto/rand.Reader, expected 32", rd.Consumed)
+	}
+	return ""
+}
+
 func register() {
+	mc.Register("nilrand", func(d mc.D) string { return runNilRand(d.Big("d"), d.B("digest"), d.S("src")) })
 	mc.Register("sampler", func(d mc.D) string {
 		var c []*big.Int
 		for _, s := range d.L("cands") {
@@ -331,6 +359,18 @@ func main() {
 	one := big.NewInt(1)
 	nm1 := new(big.Int).Sub(ref.N, one)
 
+	// nil entropy source with a scripted crypto/rand.Reader (sequential: it swaps a process-global)
+	{
+		one := big.NewInt(1)
+		for _, d := range []*big.Int{one, big.NewInt(0xdeadbeef), new(big.Int).Sub(ref.N, one)} {
+			for _, dg := range [][]byte{ref.TaggedHash("verif/C09", []byte("nil1")), make([]byte, 32), ref.B32(ref.N)} {
+				for _, src := range []string{"zero", "counter", "ff"} {
+					R.Run("hedged/nil reader equals crypto/rand.Reader", "nilrand", mc.D{"d": mc.HexBig(d), "digest": mc.Hex(dg), "src": src})
+				}
+			}
+		}
+		R.Class("hedged/nil reader with scripted crypto/rand.Reader", 27)
+	}
 	// (a) ALL candidate streams: j rejects then an accept (j = 0..7), and all-reject streams of length 8
 	if secec.VerifSampleRandomScalar != nil {
 		max := 8
